@@ -1,6 +1,7 @@
 package props
 
 import (
+	"bytes"
 	"encoding/json"
 	"fmt"
 	"strings"
@@ -39,6 +40,17 @@ func srcNode(kind string, m *dm.Module, t dm.Tree, st dm.JSONStyle) (node.Node, 
 		return dm.NewRS(m.Root(), dm.CloneTree(t)), nil
 	case "json":
 		return nodeutil.ReadJSON(dm.ToJSON(m.Name, m.Root(), t, st))
+	case "xml":
+		doc := &dm.XNode{Name: m.Name, Children: dm.TreeToXML(m.Root(), t)}
+		var b bytes.Buffer
+		doc.Render(&b, "urn:"+m.Name)
+		return nodeutil.ReadXMLDoc(strings.NewReader(b.String()))
+	case "reflect-map", "reflect-slice", "node-map", "node-slice", "reflect-struct", "node-struct":
+		st, err := dm.NewStore(kind, m.Root(), t)
+		if err != nil {
+			return nil, err
+		}
+		return st.Node(), nil
 	}
 	return nil, fmt.Errorf("source kind %s", kind)
 }
